@@ -23,7 +23,7 @@ RULE = ("models x every exactly identified plan with 1 or 2 (variable,date) targ
         "(from unplanned unit simulations) has condition number > 1e6 are excluded; distinct non-trivial = (model, plan, source, method)")
 MANIFEST_ENTRY = dict(level="exploration", design="DESIGN.md section 4 / C07",
     technique="bounded-exhaustive enumeration of all exactly identified plans with <= 2 targets/instruments over 3 dates on generated models; exactness, unchanged-input, re-simulation and inversion oracles",
-    text="For 7 (quick) / 10 (thorough) determinate generated models (with lags, leads, cross terms; one with log-variables) every exactly identified plan with 1 or 2 targets and instruments over dates 1..3 in unanticipated and in anticipated mode is simulated (first_order; stacked_time for all single-swap plans): every exogenized cell equals its input value, only endogenized shocks at endogenized dates differ from their inputs (all other shocks, initial conditions untouched), the planned path is reproduced by an ordinary simulation driven by the returned shocks (so it satisfies the equations in the sense of C01), and when the targets come from an ordinary simulation driven by shocks at the instrument cells the plan recovers those shocks and the whole path (asserted for unanticipated plans and for anticipated plans with a single information set).",
+    text="For 7 (quick) / 10 (thorough) determinate generated models (with lags, leads, cross terms; one with log-variables) every exactly identified plan with 1 or 2 targets and instruments over dates 1..3 in unanticipated and in anticipated mode is simulated (first_order; stacked_time for all single-swap plans): every exogenized cell equals its input value, only endogenized shocks at endogenized dates differ from their inputs (all other shocks, initial conditions untouched), the planned path is reproduced by an ordinary simulation driven by the returned shocks (so it satisfies the equations in the sense of C01), a two-variant run with different targets per variant equals the two single-variant runs, and when the targets come from an ordinary simulation driven by shocks at the instrument cells the plan recovers those shocks and the whole path (asserted for unanticipated plans and for anticipated plans with a single information set).",
     note="Trusted: the unplanned first-order simulator (C01) as the reference for re-simulation and impact matrices. Ill-conditioned plans (cond > 1e6) excluded by an oracle-side criterion and counted. stacked_time runs that report failure are counted, not gated.")
 ASSUMPTIONS = ["the unplanned first-order simulator is correct (C01)"]
 
@@ -217,7 +217,77 @@ def check_plan(spec, m, plan_desc, res, ctx, methods=("first_order",)):
                         bad("inversion", "%s: recovered %s, true %s" % (n_, np.round(a, 8).tolist(), np.round(b, 8).tolist()), method=method, source=source,
                             what="shock" if n_ in names_s else "path")
                         break
+    # ---- variants: each variant of a multi-variant run uses its own exogenized data -------------------------
+    try:
+        check_variants(spec, m, plan_desc, res, bad, methods)
+    except Exception as e:
+        bad("exception", "variants: %s: %s" % (type(e).__name__, str(e)[:300]), error=type(e).__name__, source="variants")
     res.sample({"model": name, "mode": mode, "targets": targets, "instruments": instruments})
+
+
+_M2 = {}
+
+
+def check_variants(spec, m, plan_desc, res, bad, methods):
+    """two variants with different targets (and a different background shock) must equal the two single-variant runs"""
+    mode, targets, instruments = plan_desc
+    span = START >> (START + N - 1)
+    amp = 0.1 if spec.log else 1.0
+    key = spec.name
+    if key not in _M2:
+        m2 = m.copy()
+        m2.alter_num_variants(2)
+        _M2.clear()
+        _M2[key] = m2
+    m2 = _M2[key]
+
+    def make_plan(model):
+        plan = ir.SimulationPlan(model, span)
+        for tg, ins in zip(targets, instruments):
+            p_t, p_i = START + tg[2] - 1, START + ins[2] - 1
+            if ins[0] == "u":
+                plan.exogenize_unanticipated((p_t,), spec.var(tg[1]))
+                plan.endogenize_unanticipated((p_i,), spec.shk(ins[1]))
+            else:
+                plan.exogenize_anticipated((p_t,), spec.var(tg[1]))
+                plan.endogenize_anticipated((p_i,), "ant_" + spec.shk(ins[1]))
+        return plan
+    base = ir.Databox.steady(m, span, deviation=False)
+    singles = []
+    tv = []
+    for k in range(2):
+        db = base.copy()
+        vals = []
+        for j, tg in enumerate(targets):
+            v = amp * (0.5 - 0.8 * j) * (1.0 if k == 0 else -0.6)
+            old = db[spec.var(tg[1])].get_data(START + tg[2] - 1)[0, 0]
+            new = old * np.exp(v) if spec.log else old + v
+            db[spec.var(tg[1])][START + tg[2] - 1] = new
+            vals.append(new)
+        tv.append(vals)
+        singles.append(db)
+    db2 = ir.Databox.steady(m2, span, deviation=False)
+    for j, tg in enumerate(targets):
+        s_ = db2[spec.var(tg[1])]
+        if s_.num_variants == 1:
+            s_.alter_num_variants(2)
+        s_[START + tg[2] - 1] = np.array([[tv[0][j], tv[1][j]]])
+    for method in methods[:1]:
+        res.ev(3)
+        outs = [simulate(m, singles[k], span, plan=make_plan(m), method=method) for k in range(2)]
+        out2 = simulate(m2, db2, span, plan=make_plan(m2), method=method)
+        res.nt((spec.name, mode, tuple(targets), tuple(instruments), "variants", method))
+        res.count("variant_runs")
+        names = [spec.var(j) for j in range(spec.n)] + [spec.shk(i) for i in range(spec.n)] + ["ant_" + spec.shk(i) for i in range(spec.n)]
+        for n_ in names:
+            a2 = out2[n_].get_data_from_until((START, START + N - 1))
+            for k in range(2):
+                col = a2[:, k] if a2.shape[1] > 1 else a2[:, 0]
+                b = outs[k][n_].get_data_from_until((START, START + N - 1))[:, 0]
+                if not np.allclose(np.nan_to_num(col), np.nan_to_num(b), rtol=1e-8, atol=1e-8):
+                    bad("variant_mismatch", "%s variant %d: multi-variant run %s, single-variant run with the same inputs %s"
+                        % (n_, k, np.round(col, 8).tolist(), np.round(b, 8).tolist()), method=method, source="variants", what="variant%d" % k)
+                    return
 
 
 def shard(item, res, ctx):
@@ -250,7 +320,8 @@ def run(ctx, total, info):
     info["bound_completed"] = 2
     c = total.counters
     info["floors"] = {"plans": (len(total.nontrivial), 1500), "mode_k_classes": (len(total.classes.get("mode_k", ())), 4),
-                      "stacked_time_successes": (c.get("planned_simulations_stacked_time", 0), 100)}
+                      "stacked_time_successes": (c.get("planned_simulations_stacked_time", 0), 100),
+                      "variant_runs": (c.get("variant_runs", 0), 700)}
 
 
 def replay(case):
